@@ -23,7 +23,11 @@ def make_copy(repo="/repo"):
 
 
 def apply_edit(d, seed):
-    """seed['edits'] = [(relpath, old, new)], each old must occur exactly once (or seed count)."""
+    """seed['edits'] = [(relpath, old, new)], each old must occur exactly once (or seed count);
+    or seed['patch'] = path of a unified diff applied with patch -p1."""
+    if "patch" in seed:
+        r = subprocess.run(["patch", "-p1", "-s", "-i", seed["patch"]], cwd=d, capture_output=True, text=True)
+        return None if r.returncode == 0 else "patch does not apply: " + (r.stdout + r.stderr)[-160:]
     for rel, old, new in seed["edits"]:
         p = os.path.join(d, rel)
         s = open(p).read()
